@@ -53,6 +53,51 @@ def words(ws):
 
 
 _ICASE = [False]
+_ASCII = [False]
+_CATS = {}
+
+
+def _category(name):
+    """Unicode-aware \\d, \\s, \\w of a str pattern (what `re` itself uses:
+    str.isdecimal / str.isspace / str.isalnum or '_'), as a union of code
+    point ranges over z3's character domain U+0000..U+2FFFF; under re.ASCII
+    the ASCII sets."""
+    key = (name, _ASCII[0])
+    if key not in _CATS:
+        if _ASCII[0]:
+            test = {'digit': lambda c: c in '0123456789',
+                    'space': lambda c: c in ' \t\n\r\f\v',
+                    'word': lambda c: c.isascii() and (c.isalnum() or
+                                                       c == '_')}[name]
+        else:
+            test = {'digit': str.isdecimal, 'space': str.isspace,
+                    'word': lambda c: c.isalnum() or c == '_'}[name]
+        ranges, start = [], None
+        for cp in range(0x30000):
+            ok = test(chr(cp))
+            if ok and start is None:
+                start = cp
+            elif not ok and start is not None:
+                ranges.append((start, cp - 1))
+                start = None
+        if start is not None:
+            ranges.append((start, 0x2FFFF))
+        _CATS[key] = union(rng(a, b) for a, b in ranges)
+    return _CATS[key]
+
+
+def _cat(av):
+    table = {sre_c.CATEGORY_DIGIT: ('digit', False),
+             sre_c.CATEGORY_NOT_DIGIT: ('digit', True),
+             sre_c.CATEGORY_SPACE: ('space', False),
+             sre_c.CATEGORY_NOT_SPACE: ('space', True),
+             sre_c.CATEGORY_WORD: ('word', False),
+             sre_c.CATEGORY_NOT_WORD: ('word', True)}
+    if av not in table:
+        raise Untranslatable(str(av))
+    name, neg = table[av]
+    r = _category(name)
+    return z3.Intersect(ANYCHAR, z3.Complement(r)) if neg else r
 
 
 def _lit_ci(c):
@@ -65,7 +110,8 @@ def _lit_ci(c):
     # re.I without re.ASCII): U+0130, U+0131, U+017F, U+212A
     extra = {'i': '\u0130\u0131', 's': '\u017f', 'k': '\u212a'}
     for f in list(forms):
-        forms |= set(extra.get(f.lower(), ''))
+        if not _ASCII[0]:
+            forms |= set(extra.get(f.lower(), ''))
     return union(lit(f) for f in sorted(forms))
 
 
@@ -92,14 +138,7 @@ def _charset(items):
         elif op is sre_c.RANGE:
             alts.append(_rng_ci(*av))
         elif op is sre_c.CATEGORY:
-            if av is sre_c.CATEGORY_DIGIT:
-                # re.UNICODE \d also matches other decimal digits; PyYAML's
-                # tables use [0-9] literally, \d never occurs there.
-                raise Untranslatable('\\d (unicode digits)')
-            elif av is sre_c.CATEGORY_SPACE:
-                raise Untranslatable('\\s')
-            else:
-                raise Untranslatable(str(av))
+            alts.append(_cat(av))
         else:
             raise Untranslatable(str(op))
     r = union(alts)
@@ -166,17 +205,19 @@ def match_lang(pat):
     `$` accepts any continuation.  Anchors are handled at top level and at the
     top level of a top-level alternation (that is how PyYAML writes them:
     ^(?:a|b|c)$  or  ^(?:a)$|^(?:b)$ )."""
-    if pat.flags & (re.M | re.S | re.A | re.L):
+    if pat.flags & (re.M | re.S | re.L):
         raise Untranslatable('flags %r' % pat.flags)
     key = (pat.pattern, pat.flags)
     if key in _LANG_CACHE:
         return _LANG_CACHE[key]
     _ICASE[0] = bool(pat.flags & re.I)
+    _ASCII[0] = bool(pat.flags & re.A)
     try:
         _LANG_CACHE[key] = _match_lang(pat)
         return _LANG_CACHE[key]
     finally:
         _ICASE[0] = False
+        _ASCII[0] = False
 
 
 _LANG_CACHE = {}
